@@ -101,6 +101,9 @@ impl Stats {
         self.prev = cur;
     }
     pub fn add(&mut self, k: &str, n: u64) {
+        if n == 0 {
+            return;
+        }
         *self.counters.entry(k.to_string()).or_insert(0) += n;
     }
     pub fn merge(&mut self, o: Stats) {
@@ -174,6 +177,16 @@ pub trait Check: Sync {
     /// properties a named oracle clause belongs to; empty = every property this world serves
     fn property_of(&self, _check: &str) -> Vec<&'static str> {
         vec![]
+    }
+    /// Mempool faults (applied by the core after generation, recorded in the trace, so replay is unaffected):
+    /// may this step be delivered twice in a row (re-submitted with a fresh signature)? Default: never.
+    fn dup_ok(&self, _s: &Self::Step) -> bool {
+        false
+    }
+    /// may steps of this world be dropped or swapped with their neighbour (delivery order differing from
+    /// preparation order)? Only worlds whose lockstep model accepts *any* step sequence opt in.
+    fn reorder_ok(&self) -> bool {
+        false
     }
     /// counters that must not stay at zero (boundary situations the property depends on)
     fn probes(&self, _prop: &str) -> Vec<&'static str> {
@@ -346,6 +359,40 @@ impl<C: Check> DynWorld for Erased<C> {
     }
 }
 
+/// Mempool model: what was prepared is not exactly what is delivered. With swarm-chosen rates a prepared tx is
+/// delivered twice (duplicate / re-submission), never (loss), or after its successor (reordering / delay).
+/// Returns the delivered sequence and how often each fault fired.
+pub fn mempool<C: Check>(c: &C, rng: &mut Rng, steps: Vec<C::Step>) -> (Vec<C::Step>, [u64; 3]) {
+    let mut fired = [0u64; 3];
+    if !c.reorder_ok() && !steps.iter().any(|s| c.dup_ok(s)) {
+        return (steps, fired);
+    }
+    // a third of the runs have no mempool faults at all (fault-free class); rates are per run
+    if rng.chance(34) {
+        return (steps, fired);
+    }
+    let (dup, drop, swap) = (rng.below(7), if c.reorder_ok() { rng.below(5) } else { 0 }, if c.reorder_ok() { rng.below(7) } else { 0 });
+    let mut out: Vec<C::Step> = Vec::with_capacity(steps.len() + 8);
+    for s in steps {
+        if rng.chance(drop) {
+            fired[1] += 1;
+            continue;
+        }
+        let twice = c.dup_ok(&s) && rng.chance(dup);
+        if twice {
+            fired[0] += 1;
+            out.push(s.clone());
+        }
+        out.push(s);
+        let n = out.len();
+        if n >= 2 && rng.chance(swap) {
+            out.swap(n - 1, n - 2);
+            fired[2] += 1;
+        }
+    }
+    (out, fired)
+}
+
 fn run_digest(st: &Stats, ok: bool) -> u64 {
     use std::hash::{Hash, Hasher};
     let mut h = Fnv(0xcbf29ce484222325);
@@ -391,8 +438,12 @@ pub fn run_world<C: Check>(c: &C, prop: &str, tier: Tier, seed: u64, out_dir: &s
                         gen_panics.fetch_add(1, Ordering::Relaxed);
                         continue;
                     };
+                    let (steps, mp) = mempool(c, &mut rng, steps);
                     let mut st = Stats::default();
                     let r = guarded(c, &cfg, &steps, &mut st);
+                    st.add("fault.mempool_duplicate_delivery", mp[0]);
+                    st.add("fault.mempool_lost_tx", mp[1]);
+                    st.add("fault.mempool_reordered_delivery", mp[2]);
                     local_digests.push((run, run_digest(&st, r.is_ok())));
                     let nontrivial = st.counters.get("tx.ok").copied().unwrap_or(0) > 0 && st.counters.get("tx.refused").copied().unwrap_or(0) > 0;
                     if nontrivial {
